@@ -1778,8 +1778,27 @@ func (f *Frame) siteCall(c *ssa.CallCommon, pos token.Pos) {
 		return
 	}
 	name := shortCallee(c)
+	// "<name>@n": the n-th call (in source order) of that callee inside this function
+	ord := 0
+	for _, b := range f.fn.Blocks {
+		for _, in := range b.Instrs {
+			var cc *ssa.CallCommon
+			switch x := in.(type) {
+			case *ssa.Call:
+				cc = &x.Call
+			case *ssa.Defer:
+				cc = &x.Call
+			case *ssa.Go:
+				cc = &x.Call
+			}
+			if cc != nil && shortCallee(cc) == name && in.Pos() <= pos {
+				ord++
+			}
+		}
+	}
+	ordName := fmt.Sprintf("%s@%d", name, ord)
 	for _, s := range rc.Sites {
-		if s.Kind != "call" || s.Pattern != name {
+		if s.Kind != "call" || (s.Pattern != name && s.Pattern != ordName) {
 			continue
 		}
 		env := f.envAt(f.cur, nil)
